@@ -1,7 +1,22 @@
 (* C08 — proofs about the composed system of Conc/TlsDuplex.v: two pumps over the ideal record layer joined by a
    fragmenting, delaying network.  pump_transparent (both directions, all interleavings), lock mutual exclusion. *)
 From Coq Require Import ZArith List Bool Lia ZifyBool.
-From EN Require Import Lib.Bytes Conc.TlsBase Conc.TlsPump Conc.IdealTls Conc.TlsDuplex Gen.ParamsC08 Proofs.C08_proofs Proofs.Ideal_proofs.
+From EN Require Import Lib.Bytes Conc.TlsBase Conc.TlsPump Conc.IdealTls Conc.TlsDuplex Proofs.Tls_tactics Proofs.C08_proofs Proofs.Ideal_proofs.
+
+Section StepFacts.
+Variable fl : flags.
+Notation flush_pc := (flush_pc fl).
+Notation pcall := (pcall fl).
+Notation after_flush := (after_flush fl).
+Notation go := (go fl).
+Notation step := (step fl).
+Notation settle_n := (settle_n fl).
+Notation settle := (settle fl).
+Notation sys_step := (sys_step fl).
+Notation sys_exec := (sys_exec fl).
+Notation step_send_is_wbio := (step_send_is_wbio fl).
+Notation recv_only_from_recvwait := (recv_only_from_recvwait fl).
+Notation step_flow := (step_flow fl).
 
 (* ------------------------------------------------------------------ facts about one pump step *)
 
@@ -102,12 +117,35 @@ Proof.
   inversion H; subst. exists tk, s1, p1, a1. cbn. auto 10.
 Qed.
 
+End StepFacts.
+
 (* ------------------------------------------------------------------ records *)
 
 Section DuplexFacts.
+Variable fl : flags.
 Variable E D : byte -> byte.
 Variable M : nat.
 Hypothesis DE : forall x, D (E x) = x.
+Notation flush_pc := (flush_pc fl).
+Notation pcall := (pcall fl).
+Notation after_flush := (after_flush fl).
+Notation go := (go fl).
+Notation step := (step fl).
+Notation settle_n := (settle_n fl).
+Notation settle := (settle fl).
+Notation sys_step := (sys_step fl).
+Notation sys_exec := (sys_exec fl).
+Notation step_send_is_wbio := (step_send_is_wbio fl).
+Notation recv_only_from_recvwait := (recv_only_from_recvwait fl).
+Notation step_flow := (step_flow fl).
+Notation step_desync_only_on_mismatch := (step_desync_only_on_mismatch fl).
+Notation step_deque := (step_deque fl).
+Notation sys_step_SStep_inv := (sys_step_SStep_inv fl).
+Notation pump := (pump fl).
+Notation ep_step := (ep_step fl E D M).
+Notation dstep := (dstep fl E D M).
+Notation dexec := (dexec fl E D M).
+
 
 Definition rcd := (byte * bytes)%type.
 Definition encs (recs : list rcd) : bytes := concat (map (fun r => enc E (fst r) (snd r)) recs).
@@ -209,15 +247,15 @@ Proof.
   intros i m n data i' o wd H. destruct m; cbn [call] in H.
   - (* do_handshake *)
     unfold do_handshake in H.
-    assert (Hneed : forall st out fl X,
+    assert (Hneed : forall st out flt X,
               match parse_hs D (i_rbio i) with
               | None => (i, starved i, [])
               | Some None => (i, SErr ESslOther, [])
-              | Some (Some rest) => (upd i st rest (i_plain i) (i_got_cn i) (i_sent_cn i), out, enc E T_HS fl)
-              end = (i', o, wd) -> fl = X \/ True ->
+              | Some (Some rest) => (upd i st rest (i_plain i) (i_got_cn i) (i_sent_cn i), out, enc E T_HS flt)
+              end = (i', o, wd) -> flt = X \/ True ->
               exists recs, wd = encs recs /\ data_of recs = []).
-    { intros st out fl X Hn _. destruct (parse_hs D (i_rbio i)) as [[rest |] |]; inversion Hn; subst.
-      - exists [(T_HS, fl)]. split; [rewrite encs_single; reflexivity | reflexivity].
+    { intros st out flt X Hn _. destruct (parse_hs D (i_rbio i)) as [[rest |] |]; inversion Hn; subst.
+      - exists [(T_HS, flt)]. split; [rewrite encs_single; reflexivity | reflexivity].
       - exists []. auto.
       - exists []. auto. }
     destruct (i_stage i) as [| [| st]]; destruct (i_client i).
@@ -272,14 +310,14 @@ Proof.
   intros i m n data i' o wd tail recs Hm H Hs. destruct m; cbn [call] in H; [| | | congruence].
   - (* do_handshake *)
     unfold do_handshake in H.
-    assert (Hneed : forall st out fl,
+    assert (Hneed : forall st out flt,
               match parse_hs D (i_rbio i) with
               | None => (i, starved i, [])
               | Some None => (i, SErr ESslOther, [])
-              | Some (Some rest) => (upd i st rest (i_plain i) (i_got_cn i) (i_sent_cn i), out, fl)
+              | Some (Some rest) => (upd i st rest (i_plain i) (i_got_cn i) (i_sent_cn i), out, flt)
               end = (i', o, wd) ->
               exists recs', i_rbio i' ++ tail = encs recs' /\ [] ++ i_plain i' ++ data_of recs' = i_plain i ++ data_of recs).
-    { intros st out fl Hn. unfold parse_hs in Hn.
+    { intros st out flt Hn. unfold parse_hs in Hn.
       destruct (parse1 D (i_rbio i)) as [[[t p] rest] |] eqn:P.
       - destruct (N.eqb t T_HS) eqn:Et.
         + inversion Hn; subst. destruct (parse_head _ _ _ _ _ _ Hs P) as [recs' [-> Hr]].
@@ -362,7 +400,7 @@ Proof. intros m b s p lb H. destruct p; destruct lb; try reflexivity; exfalso; e
 (* SENDER role of a transition: new whole records enter the outgoing stream; data records only for plaintext that
    leaves the backlog *)
 Lemma sender_step : forall e nin nout l e' nin' nout',
-  ep_step E D M e nin nout l = Some (e', nin', nout') ->
+  ep_step e nin nout l = Some (e', nin', nout') ->
   exists newrecs spawned,
     e_written e' = e_written e ++ spawned /\
     data_of newrecs ++ concat (ep_deque e') = concat (ep_deque e) ++ spawned /\
@@ -412,7 +450,7 @@ Qed.
 Definition no_unwrap (e : endpoint) : Prop := Forall (fun m => m <> MUnwrap) (ep_meths e).
 
 Lemma no_unwrap_step : forall e nin nout l e' nin' nout',
-  ep_step E D M e nin nout l = Some (e', nin', nout') -> no_unwrap e -> no_unwrap e'.
+  ep_step e nin nout l = Some (e', nin', nout') -> no_unwrap e -> no_unwrap e'.
 Proof.
   intros e nin nout l e' nin' nout' H Hu. unfold no_unwrap in *.
   destruct l as [m n data | t | t | t | t k]; cbn [ep_step] in H.
@@ -438,7 +476,7 @@ Qed.
    from the head of the incoming stream and their plaintext is returned / kept decrypted *)
 Lemma receiver_step : forall e nin nout l e' nin' nout' tail recs,
   no_unwrap e ->
-  ep_step E D M e nin nout l = Some (e', nin', nout') ->
+  ep_step e nin nout l = Some (e', nin', nout') ->
   i_rbio (e_ideal e) ++ nin ++ tail = encs recs ->
   exists recs', i_rbio (e_ideal e') ++ nin' ++ tail = encs recs' /\
     e_got e' ++ i_plain (e_ideal e') ++ data_of recs' = e_got e ++ i_plain (e_ideal e) ++ data_of recs.
@@ -483,7 +521,7 @@ Definition TInv (S R : endpoint) (net : bytes) : Prop :=
     e_got R ++ i_plain (e_ideal R) ++ data_of recs ++ concat (ep_deque S) = e_written S.
 
 Lemma TInv_sender : forall S R net nin l S' nin' net',
-  ep_step E D M S nin net l = Some (S', nin', net') -> TInv S R net -> TInv S' R net'.
+  ep_step S nin net l = Some (S', nin', net') -> TInv S R net -> TInv S' R net'.
 Proof.
   intros S R net nin l S' nin' net' H [recs [Hs Hp]].
   destruct (sender_step _ _ _ _ _ _ _ H) as [newrecs [spawned [Hw [Hd Hf]]]].
@@ -494,7 +532,7 @@ Qed.
 
 Lemma TInv_receiver : forall S R net nout l R' net' nout',
   no_unwrap R ->
-  ep_step E D M R net nout l = Some (R', net', nout') -> TInv S R net -> TInv S R' net'.
+  ep_step R net nout l = Some (R', net', nout') -> TInv S R net -> TInv S R' net'.
 Proof.
   intros S R net nout l R' net' nout' Hu H [recs [Hs Hp]].
   destruct (receiver_step _ _ _ _ _ _ _ (ep_wbio S) recs Hu H Hs) as [recs' [Hs' Hp']].
@@ -512,16 +550,16 @@ Proof.
   unfold DInv, duplex0, TInv, no_unwrap. cbn. repeat split; try (exists []; auto); constructor.
 Qed.
 
-Lemma DInv_step : forall c l c', dstep E D M c l = Some c' -> DInv c -> DInv c'.
+Lemma DInv_step : forall c l c', dstep c l = Some c' -> DInv c -> DInv c'.
 Proof.
   intros c [side cl] c' H [IAB [IBA [UA UB]]]. unfold dstep in H. destruct side.
-  - destruct (ep_step E D M (dA c) (nBA c) (nAB c) cl) as [[[a' nin'] nout'] |] eqn:S; inversion H; subst. cbn.
+  - destruct (ep_step (dA c) (nBA c) (nAB c) cl) as [[[a' nin'] nout'] |] eqn:S; inversion H; subst. cbn.
     repeat split.
     + exact (TInv_sender _ _ _ _ _ _ _ _ S IAB).
     + exact (TInv_receiver _ _ _ _ _ _ _ _ UA S IBA).
     + exact (no_unwrap_step _ _ _ _ _ _ _ S UA).
     + exact UB.
-  - destruct (ep_step E D M (dB c) (nAB c) (nBA c) cl) as [[[b' nin'] nout'] |] eqn:S; inversion H; subst. cbn.
+  - destruct (ep_step (dB c) (nAB c) (nBA c) cl) as [[[b' nin'] nout'] |] eqn:S; inversion H; subst. cbn.
     repeat split.
     + exact (TInv_receiver _ _ _ _ _ _ _ _ UB S IAB).
     + exact (TInv_sender _ _ _ _ _ _ _ _ S IBA).
@@ -529,17 +567,17 @@ Proof.
     + exact (no_unwrap_step _ _ _ _ _ _ _ S UB).
 Qed.
 
-Lemma DInv_exec : forall ls c c', dexec E D M c ls = Some c' -> DInv c -> DInv c'.
+Lemma DInv_exec : forall ls c c', dexec c ls = Some c' -> DInv c -> DInv c'.
 Proof.
   induction ls as [| l ls IH]; intros c c' H I; cbn in H.
   - inversion H; subst; exact I.
-  - destruct (dstep E D M c l) as [c1 |] eqn:S; try discriminate. eapply IH; eauto. eapply DInv_step; eauto.
+  - destruct (dstep c l) as [c1 |] eqn:S; try discriminate. eapply IH; eauto. eapply DInv_step; eauto.
 Qed.
 
 Definition is_prefix (p s : bytes) : Prop := exists rest, p ++ rest = s.
 
 Lemma duplex_transparent : forall ls c,
-  dexec E D M duplex0 ls = Some c ->
+  dexec duplex0 ls = Some c ->
   is_prefix (e_got (dB c)) (e_written (dA c)) /\ is_prefix (e_got (dA c)) (e_written (dB c)).
 Proof.
   intros ls c H. destruct (DInv_exec _ _ _ H DInv_init) as [[r1 [_ P1]] [[r2 [_ P2]] _]].
